@@ -389,7 +389,11 @@ func checkPartial(x *Exec, prop string, m *u.MapPollard, md *partModel, lastOp O
 	os := sortedKeys(obs)
 	name := fmt.Sprintf("MapPollard(partial,TR=%d)", m.TotalRows)
 	psets := subsets
-	if len(os) > 7 {
+	if len(os) > 600 {
+		psets = func(items []int, _ bool) [][]int {
+			return (&HistFamily{Or: HistOracle{ProofSets: "ends"}}).proofSets(items)
+		}
+	} else if len(os) > 7 {
 		// large caches (medium family): singletons, neighbouring pairs, first+last, all
 		psets = func(items []int, _ bool) [][]int {
 			return (&HistFamily{Or: HistOracle{ProofSets: "tall"}}).proofSets(items)
@@ -629,9 +633,49 @@ func partialMedium(c *Ctx, collect ...string) {
 		}
 		c.Cov.Bound["two_deletion_blocks"] = fmt.Sprintf("N=%d, every disjoint non-empty S,T, remember all / even, undone twice; %d histories", tdN, len(jobs)-before)
 	}
+	// large caches: hundreds (thorough: 66 000) of remembered leaves among 600 (132 000); 130 / 257 (65 537) leaves in one
+	// Verify(remember), Prune or block - counters and indexes of 8 or 16 bits wrap here
+	{
+		before := len(jobs)
+		type big struct{ N, many int }
+		bigs := []big{{600, 257}}
+		if c.Thorough() {
+			bigs = append(bigs, big{132000, 65537})
+		}
+		seq := func(a, b, step int) []int {
+			var x []int
+			for i := a; i < b; i += step {
+				x = append(x, i)
+			}
+			return x
+		}
+		for _, bg := range bigs {
+			N, many := bg.N, bg.many
+			evens := seq(0, N, 2)
+			h1 := []Op{{Kind: "block", Adds: N, Rem: evens},
+				{Kind: "verify", Set: seq(1, 2*many, 2)},                               // `many` uncached leaves in one call
+				{Kind: "prune", Set: seq(0, 2*many, 2)},                                // `many` cached leaves in one call
+				{Kind: "block", Dels: []int{1, 3, 2*many - 1}, Adds: 2, Rem: []int{0}}, // some of what is left
+				{Kind: "undo"}}
+			h2 := []Op{{Kind: "block", Adds: N, Rem: seq(0, N, 1)},
+				{Kind: "block", Dels: seq(0, many, 1), Adds: 1, Rem: []int{0}}, // `many` deletions in one block
+				{Kind: "undo"}}
+			for _, tr := range []uint8{0, 63} {
+				jobs = append(jobs, job{tr, h1}, job{tr, h2})
+			}
+		}
+		// one block of 65535 / 65536 / 65537 additions (16-bit addition counts wrap), then a deletion
+		for _, k := range []int{1<<16 - 1, 1 << 16, 1<<16 + 1} {
+			h := []Op{{Kind: "block", Adds: k, Rem: []int{0, 1, k - 1}}, {Kind: "block", Dels: []int{1}, Adds: 1, Rem: []int{0}}}
+			for _, tr := range []uint8{0, 4, 63} {
+				jobs = append(jobs, job{tr, h})
+			}
+		}
+		c.Cov.Bound["large_caches"] = fmt.Sprintf("%v (leaves, leaves per call); %d histories", bigs, len(jobs)-before)
+	}
 	var steps, evals int64
 	ok := parallelFor(c, len(jobs), func(i int) {
-		fam := &PartialFamily{Nmax: 64, TR: jobs[i].tr, UndoBud: 1, Prop: "C09"}
+		fam := &PartialFamily{Nmax: 1 << 20, TR: jobs[i].tr, UndoBud: 1, Prop: "C09"}
 		if len(collect) > 0 {
 			fam.Collect = collect[0]
 		}
